@@ -748,3 +748,87 @@ C12_INIT_PLATES = dict(
     implicit_return="tt",
 )
 ALL += [C12_INIT_OBS, C12_INIT_PLATES]
+
+# ---- C04: what the sparse-combo models are trained on (vocabulary: Model/Train.v, its last part) ----
+# `data` (a ScreenBase) is the list of its rows at id level (Train.trow); each 1-d array attribute is that column of the
+# rows.  Observations are Train.oval (exact rational | NaN | +-inf).  The wrapped legacy sampler object is Train.legacy
+# (its four Python lists and three defaultdict(list) index dictionaries).  Trusted per entry: one attribute read / one
+# numpy / scipy call each; float32 rounding and logit on (0,1) are the parameters r32 / orc of the model.
+_C04 = dict(out="SrcTrain.v", imports="Lib.Num Generated.Consts Model.Train", typed_targets=True)
+_C04_ROWS = [
+    ("data.observations", "map t_obs data'", "list oval"),
+    ("data.treatment_ids", "map t_treats data'", "list (list Z)"),
+    ("data.sample_ids", "map t_sample data'", "list Z"),
+    ("data.observation_mask", "map t_mask data'", "list bool"),
+]
+_C04_NUMPY = [
+    ("__b.all()", "all_true {b}", "bool", {"b": "list bool"}),
+    ("__b.any()", "any_true {b}", "bool", {"b": "list bool"}),
+    ("__a >= 0.0", "map o_nonneg {a}", "list bool", {"a": "list oval"}),                   # elementwise; NaN >= 0 is False
+    ("__a.astype(np.float32)", "map (cast32 r32) {a}", "list oval", {"a": "list oval"}),
+    ("logit(__a)", "map (ologit orc) {a}", "list oval", {"a": "list oval"}),              # scipy.special.logit, elementwise
+    ("np.isnan(__a)", "map o_isnan {a}", "list bool", {"a": "list oval"}),
+]
+
+# BayesianModel.add_observations, for ANY model class: `inner` is the abstract method self._add_observations
+C04_ADD_OBSERVATIONS = dict(
+    _C04, file="src/batchie/core.py", cls="BayesianModel", func="add_observations", name="src_add_observations",
+    pyparams=["self", "data"],
+    params=[("S", "Type"), ("inner", "S -> list trow -> result S"), ("self", "S"), ("data", "list trow")],
+    returns="S", vars={},
+    prims=_C04_ROWS + _C04_NUMPY,
+    effects=[("self._add_observations(__d)", "self'", "!inner {state} {d}")],
+    raises=[("Cannot add data with masked observations", 1)],
+    implicit_return="{self}",       # the method mutates self: it denotes the new self
+)
+
+# LegacySparseDrugComboImpl / LegacySparseDrugComboInteractionImpl: n_obs and _update (the same text in both classes)
+_LEGACY_FIELDS = {
+    "y": ("legacy", "list oval", "lg_y {obj}", "set_lg_y {obj} {val}"),
+    "cline": ("legacy", "list Z", "lg_cline {obj}", "set_lg_cline {obj} {val}"),
+    "dd1": ("legacy", "list Z", "lg_dd1 {obj}", "set_lg_dd1 {obj} {val}"),
+    "dd2": ("legacy", "list Z", "lg_dd2 {obj}", "set_lg_dd2 {obj} {val}"),
+    "cline_idxs": ("legacy", "dict list Z", "lg_cline_idxs {obj}", "set_lg_cline_idxs {obj} {val}"),
+    "dd1_idxs": ("legacy", "dict list Z", "lg_dd1_idxs {obj}", "set_lg_dd1_idxs {obj} {val}"),
+    "dd2_idxs": ("legacy", "dict list Z", "lg_dd2_idxs {obj}", "set_lg_dd2_idxs {obj} {val}"),
+}
+
+
+def _legacy(file, cls, tag):
+    n_obs = dict(_C04, file=file, cls=cls, func="n_obs", name="src_%s_n_obs" % tag, pyparams=["self"],
+                 params=[("self", "legacy")], returns="Z", vars={}, fields=_LEGACY_FIELDS,
+                 prims=[("len(__l)", "Z.of_nat (length {l})", "Z")])
+    update = dict(_C04, file=file, cls=cls, func="_update", name="src_%s_update" % tag,
+                  pyparams=["self", "y", "cl", "dd1", "dd2"],
+                  params=[("self", "legacy"), ("y", "oval"), ("cl", "Z"), ("dd1", "Z"), ("dd2", "Z")],
+                  returns="legacy", vars={"n": "Z"}, fields=_LEGACY_FIELDS,
+                  defaultdict_list=["cline_idxs", "dd1_idxs", "dd2_idxs"],      # created as defaultdict(list) in __init__
+                  prims=[("self.n_obs()", "!src_%s_n_obs self'" % tag, "Z")],   # runs the translated n_obs
+                  implicit_return="{self}")
+    return [n_obs, update]
+
+
+C04_LEGACY = _legacy("src/batchie/models/sparse_combo.py", "LegacySparseDrugComboImpl", "legacy")
+C04_LEGACY_INT = _legacy("src/batchie/models/sparse_combo_interaction.py", "LegacySparseDrugComboInteractionImpl", "legacy_int")
+
+# SparseDrugCombo._add_observations; self.wrapped_model._update(...) runs the translated _update
+C04_SDC_ADD = dict(
+    _C04, file="src/batchie/models/sparse_combo.py", cls="SparseDrugCombo", func="_add_observations",
+    name="src_sdc_add_observations", pyparams=["self", "data"],
+    attr_vars={"self.wrapped_model": "wrapped_model"},
+    params=[("orc", "oracle"), ("r32", "cast_fn"), ("wrapped_model", "legacy"), ("data", "list trow")],
+    returns="legacy",
+    vars={"observations_transformed": "list oval", "y": "oval", "dd": "list Z", "cl": "Z", "mask": "bool"},
+    float_literals=("q_of_pair ({n}, {d})", "Qc"),      # the clip bounds, read from the call
+    prims=_C04_ROWS + _C04_NUMPY + [
+        ("np.clip(__a, a_min=__lo, a_max=__hi)", "map (oclip_at {lo} {hi}) {a}", "list oval", {"a": "list oval", "lo": "Qc", "hi": "Qc"}),
+        ("zip(__a, __b, __c, __d)", "zip4 {a} {b} {c} {d}", "list (oval * list Z * Z * bool)",
+         {"a": "list oval", "b": "list (list Z)", "c": "list Z", "d": "list bool"}),
+        ("__l[__i]", "!id_at {l} {i}", "Z", {"l": "list Z", "i": "Z"}),          # dd[0], dd[1]: IndexError = tag 4
+    ],
+    effects=[("wrapped_model._update(y=__y, cl=__c, dd1=__a, dd2=__b)", "wrapped_model'", "!src_legacy_update {state} {y} {c} {a} {b}")],
+    raises=[("Observations should be non-negative", 2), ("NaNs in observations", 3)],
+    implicit_return="{wrapped_model}",
+)
+
+ALL += [C04_ADD_OBSERVATIONS] + C04_LEGACY + C04_LEGACY_INT + [C04_SDC_ADD]
